@@ -37,3 +37,74 @@ def read_text(game, lines, **kw):
 
 def write_read(game, obj):
     return read_text(game, write_text(game, obj))
+
+
+# ---- the file entry points (read_file / write_file) ---------------------------------------------------------
+ENC = dict(osu="utf8", qua="utf8", sm="utf8", bms="shift_jis")
+
+
+def _cls(game):
+    if game == "osu":
+        from reamber.osu import OsuMap as C
+    elif game == "qua":
+        from reamber.quaver import QuaMap as C
+    elif game == "sm":
+        from reamber.sm import SMMapSet as C
+    elif game == "bms":
+        from reamber.bms import BMSMap as C
+    else:
+        from reamber.o2jam import O2JMapSet as C
+    return C
+
+
+def read_via_file(game, content, **kw):
+    """Stores `content` (bytes, or str encoded the way the game's files are) in a scratch file and reads it with read_file."""
+    import os
+    import tempfile
+
+    data = content if isinstance(content, bytes) else content.encode(ENC[game])
+    with tempfile.TemporaryDirectory(prefix="verif-io-") as d:
+        p = os.path.join(d, "chart." + dict(osu="osu", qua="qua", sm="sm", bms="bme", o2j="ojn")[game])
+        with open(p, "wb") as f:
+            f.write(data)
+        return _cls(game).read_file(p, **kw)
+
+
+def write_via_file(game, obj, **kw):
+    """write_file into a scratch file; returns the bytes of the file."""
+    import os
+    import tempfile
+
+    with tempfile.TemporaryDirectory(prefix="verif-io-") as d:
+        p = os.path.join(d, "chart." + dict(osu="osu", qua="qua", sm="sm", bms="bme")[game])
+        obj.write_file(p, **kw)
+        with open(p, "rb") as f:
+            return f.read()
+
+
+def check_file_entry_points(ctx, game, content, obj, den_fn, site, case, written=None, read_kw=None, write_kw=None, check_write=True):
+    """The file entry points agree with the in-memory ones: read_file(file holding `content`) denotes what read(content) gave
+    (`obj`, compared through den_fn; skipped when content is None), and write_file leaves exactly the bytes of write()
+    (`written`, computed if None; skipped when check_write is False)."""
+    if content is not None:
+        ctx.transition()
+        try:
+            viaf = read_via_file(game, content, **(read_kw or {}))
+            a, b = den_fn(viaf), den_fn(obj)
+            ctx.check("file.read_same", a == b, site=site, case=case, observed=str(a)[:400], expected=str(b)[:400])
+        except Exception as e:
+            ctx.check("file.read_same", False, site=dict(site, exc=type(e).__name__), case=case, observed=f"{type(e).__name__}: {e}"[:300], expected="the chart read(content) gives")
+    if game == "o2j" or not check_write:
+        return
+    ctx.transition()
+    try:
+        if written is None:
+            written = obj.write(**(write_kw or {}))
+        if isinstance(written, list):
+            written = "\n".join(written)
+        exp = written if isinstance(written, bytes) else written.encode(ENC[game])
+        got = write_via_file(game, obj, **(write_kw or {}))
+        # text mode may translate the line separator of the platform; compare modulo that
+        ctx.check("file.write_same", got.replace(b"\r\n", b"\n") == exp.replace(b"\r\n", b"\n"), site=site, case=case, observed=got[-300:].decode("latin1"), expected=exp[-300:].decode("latin1"))
+    except Exception as e:
+        ctx.check("file.write_same", False, site=dict(site, exc=type(e).__name__), case=case, observed=f"{type(e).__name__}: {e}"[:300], expected="the bytes of write()")
